@@ -1,6 +1,6 @@
 #!/bin/bash
 # Confirms a sub-agent's seeded change in its scratch worktree and, if confirmed, stores it under /verif/seeded/<id>/.
-# usage: confirm_seed.sh <worktree> <A|B> <seed-id> <property>
+# usage: confirm_seed.sh <worktree> <variant letter> <seed-id> <property>
 wt=$1; v=$2; id=$3; prop=$4
 export CARGO_NET_OFFLINE=true CARGO_TARGET_DIR=/tmp/seed-target
 cd $wt || exit 2
